@@ -54,7 +54,7 @@ pub fn total<F: Family>(b: &[u8], ctx: &mut Ctx) -> CaseResult {
             .collect();
         let p3 = fam::dec_poll_styled::<F>(b, &steps, 0, None, false, 0);
         for (r, how) in [(&p2, "one byte per read with Pending before every read"), (&p3, "a schedule with transient WouldBlock / Interrupted failures")] {
-            if r.spurious_pending || matches!(&r.transient_not_surfaced, Some(x) if x == "Pending") {
+            if r.spurious_pending || r.lost_wakeup || matches!(&r.transient_not_surfaced, Some(x) if x == "Pending") {
                 return Err(crate::run::Violation::new(format!(
                     "{} poll decoder on {} under {}: it returned Pending in a poll in which the transport was not pending, so no wake-up is registered and the decode never completes under an executor",
                     F::FAM.name(),
